@@ -244,7 +244,9 @@ def run(ctx):
                 "inf, -0.0, extremes, empty strings; int8 carried as Int16; ranks 0..3 incl. zero extents; "
                 "structures/grids to depth 3; numpy- and IterData-backed sequences with 0..4 records and one inner "
                 "sequence) x configurations {in-process app, app behind gzip, requests session on a WSGI adapter, "
-                "the same with gzip, CachedSession, saved .dods file}; a dataset is non-trivial when it has an array, "
+                "the same with gzip, CachedSession, saved .dods file, open_dods_url x {app, gzip, requests, requests+gzip, "
+                "1-byte chunks}, open_url behind a re-chunking hop x {1-byte, boundary before the last byte, random, "
+                "gzip+1-byte}}; a family whose last variable makes the decoder's final read zero-length; a dataset is non-trivial when it has an array, "
                 "a container or a sequence; distinct by (declaration, data)")
     ctx.assumptions = ["gzip.decompress(gzip.compress(b)) = b (hypothesis of C01_transport, exercised by the oracle)",
                        "webob/requests/requests_cache plumbing, file I/O and the DDS text round trip (C07) are "
